@@ -101,6 +101,17 @@ fn alphabet(mode: Mode, w: u16, h: u16, reduced: bool) -> Vec<Letter> {
                 let tr = (t as usize * 16 + pei * 2 + content) as u8;
                 let hd = hdr(mode, w, h, t, tr, pei, (pei % 2) as u8);
                 let mut mbs = body(&hd, content % 2, pei);
+                // the last coded block of the picture uses the last zig-zag positions
+                if content == 0 && pei % 2 == 1 {
+                    if let Some(Mb::Coded { kind, blocks, .. }) = mbs.iter_mut().rev().find(|m| matches!(m, Mb::Coded { .. })) {
+                        let v1 = hd.v1();
+                        blocks[5].ev = if kind.is_intra() {
+                            vec![ev_auto(false, 60, 2, v1), ev_auto(false, 0, -1, v1), ev_auto(true, 0, 1, v1)]
+                        } else {
+                            vec![ev_auto(false, 61, 2, v1), ev_auto(false, 0, -1, v1), ev_auto(true, 0, 1, v1)]
+                        };
+                    }
+                }
                 if content == 2 {
                     mbs.insert(mbs.len() - 1, Mb::Stuffing);
                     mbs.insert(0, Mb::Stuffing);
